@@ -76,7 +76,13 @@ def generate():
     body = fn_body(ut, "is_reserved_in_force")
     rdisp = dict(re.findall(r"Some\(Version::(\w+)\) => (KEYWORDS_\w+)", body))
     rest = re.sub(r"Some\(Version::(\w+)\) => (KEYWORDS_\w+),?", "", body)
-    if re.sub(r"\s+", "", rest) != "letkeywords=matchcurrent_version(){_=>returntrue,};!KEYWORDS_1800_2017.contains(&t)||keywords.contains(&t)":
+    # the names of compiler directives are exempt inside a directive (`include is a directive under every set)
+    exempt = "ifin_directive()&&KEYWORDS_DIRECTIVE.contains(&t){returntrue;}"
+    flat = re.sub(r"\s+", "", rest)
+    exempts_directive_names = flat.startswith(exempt)
+    if exempts_directive_names:
+        flat = flat[len(exempt):]
+    if flat != "letkeywords=matchcurrent_version(){_=>returntrue,};!KEYWORDS_1800_2017.contains(&t)||keywords.contains(&t)":
         raise Shape("is_reserved_in_force: not `latest table lacks t or the table in force has it`: %r" % rest[:160])
     if any(disp.get(v) != tb for v, tb in rdisp.items()):
         raise Shape("is_reserved_in_force: a version is mapped to another table than in is_keyword")
@@ -98,6 +104,7 @@ def generate():
             out.append("  | Some V_%s => Some %s" % (v, rdisp[v].lower()))
     out.append("  | _ => None\n  end.")
     out.append("Definition specifiers : list (string * version) := [%s]." % "; ".join('("%s", V_%s)' % (s, v) for s, v in arms))
+    out.append("Definition guard_exempts_directive_names : bool := %s." % ("true" if exempts_directive_names else "false"))
     out.append("Definition lexers_refuse_keywords : bool := %s." % ("true" if all(lex.values()) else "false"))
     out.append('Definition ident_first : string := "%s".' % sets["AZ_"])
     out.append('Definition ident_tail : string := "%s".' % sets["AZ09_DOLLAR"])
@@ -105,7 +112,7 @@ def generate():
     out.append('Definition keyword_boundary : string := "%s".' % boundary)
     text = "\n".join(out) + "\n"
     facts = {"tables": {k: len(v) for k, v in tables.items()}, "versions": versions, "dispatch": disp, "none": mnone.group(1),
-             "specifiers": arms, "lexers": lex, "char_sets": sets, "keyword_boundary": mk.group(1), "keyword_guard": sorted(rdisp), "hash": hashlib.sha256(text.encode()).hexdigest()[:16],
+             "specifiers": arms, "lexers": lex, "char_sets": sets, "keyword_boundary": mk.group(1), "keyword_guard": sorted(rdisp), "guard_exempts_directive_names": exempts_directive_names, "hash": hashlib.sha256(text.encode()).hexdigest()[:16],
              "words": tables}
     return text, facts
 
